@@ -40,7 +40,7 @@ def _line(kind, shape, data):
 def _judge_dist(c, drv, got):
     out = []
     spec = core.ints(drv['spec'])
-    model = core.ints(drv['model'])
+    model = core.ints(drv['model']) if 'model' in drv else None      # long lines: specification only
     maxd = int(drv['maxd'])
     nd = 'ndim2' if len(c['shape']) == 2 else 'ndimN'
     g = np.asarray(got, dtype=np.float64).ravel(order='C')
@@ -65,7 +65,7 @@ def _judge_dist(c, drv, got):
             out.append(dict(kind='property', key=f'distance:{nd}:{cls}',
                             detail=dict(pixel=[int(x) for x in np.unravel_index(i, c['shape'])], got=float(g[i]),
                                         spec=float(want[i]), nbad=int(bad.size))))
-    if not out and not eucl:
+    if not out and not eucl and model is not None:
         if [float(x) for x in model] != g.tolist():
             out.append(dict(kind='model', key=f'distance-model:{nd}', detail=dict(got=g.tolist()[:40], model=model[:40])))
     if not out and eucl and drv.get('wrap'):
@@ -74,6 +74,8 @@ def _judge_dist(c, drv, got):
         if wrap.tobytes() != g.tobytes():
             out.append(dict(kind='model', key=f'distance-wrapper-model:{nd}',
                             detail=dict(got=g.tolist()[:40], model=wrap.tolist()[:40])))
+    if model is None:
+        return out
     if spec and spec[0] >= 0 and spec != model:
         out.append(dict(kind='model', key='model-vs-spec', detail=dict(spec=spec[:40], model=model[:40])))
     if drv['flat'] != drv['model']:
@@ -96,10 +98,10 @@ def _eval_single(cases):
     for c in cases:
         k = c['kind']
         if k == 'dist':
-            lines.append(_line('dist', c['shape'], [int(x != 0) for x in c['data']])
+            lines.append(_line('distl' if c.get('lite') else 'dist', c['shape'], [int(x != 0) for x in c['data']])
                          + (' eucl=1' if c.get('metric', 'euclidean2') == 'euclidean' else ''))
         elif k == 'gvor':
-            lines.append(_line('gvor', c['shape'], c['data']) if len(c['shape']) == 2 else 'ping')
+            lines.append(_line('gvorl' if c.get('lite') else 'gvor', c['shape'], c['data']) if len(c['shape']) == 2 else 'ping')
         elif k == 'dt1d':
             lines.append(f"c05 kind=dt1d data={gen.enc_arr(c['data'])}")
         else:
@@ -148,9 +150,11 @@ def _eval_single(cases):
                         f.append(dict(kind='property', key='gvoronoi:not-nearest',
                                       detail=dict(pixels=bad[:8], got=g, nearest=[sorted(s) for s in acc][:40])))
                     nontriv = any(v == 0 for v in c['data'])
-                if not f and g != core.ints(drv['model']):
+                if c.get('lite'):
+                    pass        # specification only (long lines): the model is not run
+                elif not f and g != core.ints(drv['model']):
                     f.append(dict(kind='model', key='gvoronoi-model', detail=dict(got=g, model=core.ints(drv['model']))))
-                if drv['flat'] != drv['model']:
+                if not c.get('lite') and drv['flat'] != drv['model']:
                     f.append(dict(kind='model', key='gvoronoi-model-coord-vs-flat', detail=dict(flat=drv['flat'], model=drv['model'])))
             if not np.array_equal(before, A):
                 f.append(dict(kind='property', key='input-modified', detail={}))
@@ -364,6 +368,26 @@ def cases(rng, tier):
             top = rng.choice([3, 20, 200, 2 * n * n + 1])
             data = [rng.choice([0, top, rng.randint(0, top)]) for _ in range(n)]
             rands.append(dict(kind='dt1d', data=data, strided=rng.random() < 0.5))
+    # very long lines (1 x n, n x 1, n > 4096): squared coordinates beyond 2^24 need every intermediate in double
+    # precision; labels / background pixels are sparse, with adjacent pairs at high coordinates
+    for i in range(dict(quick=4, thorough=40, search=10)[tier]):
+        n = rng.randint(4200, 7000)
+        shape = [1, n] if i % 2 == 0 else [n, 1]
+        pos = sorted({rng.randint(0, n - 1) for _ in range(rng.randint(2, 6))})
+        for _ in range(2):
+            v = rng.randint(4097, n - 2)
+            pos += [v, v + 1]
+        pos = sorted(set(pos))
+        if i % 4 < 3:
+            data = [0] * n
+            for k, q in enumerate(pos):
+                data[q] = k + 1
+            rands.append(dict(kind='gvor', shape=shape, dtype=rng.choice(['int32', 'int64', 'uint16']), data=data, layout='C', lite=True))
+        else:
+            data = [1] * n
+            for q in pos:
+                data[q] = 0
+            rands.append(dict(kind='dist', shape=shape, dtype='bool', data=data, layout='C', metric='euclidean2', lite=True))
     return _interleave(out, blocks, rands)
 
 
